@@ -145,6 +145,12 @@ func runConc() {
 		s2, _ := k.Sign(nil, m, &stded.Options{Hash: crypto.SHA512, Context: "x"})
 		bx.keys, bx.msgs, bx.sigs, bx.sigsPh = append(bx.keys, ed25519.PublicKey(k[32:])), append(bx.msgs, m), append(bx.sigs, s1), append(bx.sigsPh, s2)
 	}
+	priv2 := ed25519.NewKeyFromSeed(r.Bytes(32))
+	pub2 := ed25519.PublicKey(priv2[32:])
+	msg2 := r.Bytes(100)
+	sp2 := stded.NewKeyFromSeed(priv2[:32])
+	sigKey2 := stded.Sign(sp2, msg)
+	sigMsg2 := stded.Sign(stdPriv, msg2)
 	type opfn func() []byte
 	bseed := r.Int63()
 	ops := map[string]opfn{
@@ -182,6 +188,21 @@ func runConc() {
 		},
 		"Batch/4-ph:x": func() []byte {
 			return batchResult(ed25519.VerifyBatch(hx.NewRng(bseed), bx.keys, bx.msgs, bx.sigsPh, &ed25519.Options{Hash: crypto.SHA512, Context: "x"}))
+		},
+		"Verify/valid-msg2":   func() []byte { return []byte{b2i(ed25519.Verify(pub, msg2, sigMsg2))} },
+		"Verify/valid-key2":   func() []byte { return []byte{b2i(ed25519.Verify(pub2, msg, sigKey2))} },
+		"Verify/key2-on-sig1": func() []byte { return []byte{b2i(ed25519.Verify(pub2, msg, sig))} },
+		"Batch/6-prefix-of-70": func() []byte {
+			return batchResult(ed25519.VerifyBatch(hx.NewRng(bseed), b70.keys[:6], b70.msgs[:6], b70.sigs[:6], b70.opts))
+		},
+		"Batch/66-prefix-of-130": func() []byte {
+			return batchResult(ed25519.VerifyBatch(hx.NewRng(bseed), b130.keys[:66], b130.msgs[:66], b130.sigs[:66], b130.opts))
+		},
+		"X25519/base2": func() []byte { o, _ := x25519.X25519(upoint, x25519.Basepoint); return o },
+		"Convert/key2": func() []byte {
+			a := x25519.EdPrivateKeyToX25519(priv2)
+			b, _ := x25519.EdPublicKeyToX25519(pub2)
+			return append(a, b...)
 		},
 		"Batch/70-valid": func() []byte {
 			return batchResult(ed25519.VerifyBatch(hx.NewRng(bseed), b70.keys, b70.msgs, b70.sigs, b70.opts))
